@@ -707,18 +707,38 @@ impl IdlArcSqliteWriteTransaction<'_> {
             })?;
 
         // Ensure the db commit succeeds first.
+        #[cfg(feature = "verif-hooks")]
+        let _ = crate::verif_hooks::point("arc.c.db");
         db.commit()?;
 
         // Can no longer fail from this point.
+        #[cfg(feature = "verif-hooks")]
+        let _ = crate::verif_hooks::point("arc.c.op_ts_max");
         op_ts_max.commit();
+        #[cfg(feature = "verif-hooks")]
+        let _ = crate::verif_hooks::point("arc.c.name_cache");
         name_cache.commit();
+        #[cfg(feature = "verif-hooks")]
+        let _ = crate::verif_hooks::point("arc.c.idx_exists");
         idx_exists_cache.commit();
+        #[cfg(feature = "verif-hooks")]
+        let _ = crate::verif_hooks::point("arc.c.idl_cache");
         idl_cache.commit();
+        #[cfg(feature = "verif-hooks")]
+        let _ = crate::verif_hooks::point("arc.c.allids");
         allids.commit();
+        #[cfg(feature = "verif-hooks")]
+        let _ = crate::verif_hooks::point("arc.c.maxid");
         maxid.commit();
+        #[cfg(feature = "verif-hooks")]
+        let _ = crate::verif_hooks::point("arc.c.keyhandles");
         keyhandles.commit();
         // Unlock the entry cache last to remove contention on everything else.
+        #[cfg(feature = "verif-hooks")]
+        let _ = crate::verif_hooks::point("arc.c.entry_cache");
         entry_cache.commit();
+        #[cfg(feature = "verif-hooks")]
+        let _ = crate::verif_hooks::point("arc.c.done");
 
         Ok(())
     }
@@ -1362,11 +1382,23 @@ impl IdlArcSqlite {
 
     pub fn read(&self) -> Result<IdlArcSqliteReadTransaction<'_>, OperationError> {
         // IMPORTANT! Always take entrycache FIRST
+        #[cfg(feature = "verif-hooks")]
+        let _ = crate::verif_hooks::point("arc.r.entry_cache");
         let entry_cache_read = self.entry_cache.read();
+        #[cfg(feature = "verif-hooks")]
+        let _ = crate::verif_hooks::point("arc.r.db");
         let db_read = self.db.read()?;
+        #[cfg(feature = "verif-hooks")]
+        let _ = crate::verif_hooks::point("arc.r.idl_cache");
         let idl_cache_read = self.idl_cache.read();
+        #[cfg(feature = "verif-hooks")]
+        let _ = crate::verif_hooks::point("arc.r.name_cache");
         let name_cache_read = self.name_cache.read();
+        #[cfg(feature = "verif-hooks")]
+        let _ = crate::verif_hooks::point("arc.r.idx_exists");
         let idx_exists_cache_read = self.idx_exists_cache.read();
+        #[cfg(feature = "verif-hooks")]
+        let _ = crate::verif_hooks::point("arc.r.allids");
         let allids_read = self.allids.read();
 
         Ok(IdlArcSqliteReadTransaction {
